@@ -125,6 +125,17 @@ CLAIMED = {
    note="Capability matching (match_claim), sector_identifier fetch and split_uri/comb_uri are not modelled (echo and metadata consistency are oracle-checked); "
         "URI features are computed with urllib at the interface.",
    technique="Lean 4 proof (exhaustive decision table + freshness invariant by induction) + endpoint correspondence on registration histories", ref="6 C19"),
+ "C18": dict(
+   text="Lean theorems for every user id, salt, sector and every hash H: the four publication points publish the grant's sub (with the forced "
+        "hypothesis that no user attribute named sub is released, and a counter-example theorem for it); sub is stable across logins; public "
+        "subjects equal across clients; pairwise subjects agree within a sector and — under the explicit hypothesis Function.Injective H — "
+        "differ between sectors; different users get different public subjects; ephemeral subjects differ per grant; a public/pairwise sub is an "
+        "image of H (the model's form of opacity); the endpoints compute the sub from the client's registered type and sector. Tie: login "
+        "sequences of several users (Unicode ids) at seven clients through the real authorization/token/userinfo/introspection endpoints with "
+        "JWT access tokens: the model's preimage hashed with hashlib must equal the delivered sub; relational oracle across logins.",
+   note="SHA-256 is the parameter H; collision-freedom is a hypothesis of two theorems, preimage resistance a cryptographic assumption outside Lean; "
+        "custom sub_func classes (PublicID/PairWiseID with their own salt) are not driven.",
+   technique="Lean 4 proof (equational reasoning with an injective-hash hypothesis) + endpoint correspondence on login sequences", ref="6 C18"),
 }
 NOT_YET = {}
 ALL = [f"C{i:02d}" for i in range(1, 21)]
